@@ -77,15 +77,24 @@ func Parse(data string) (ret map[string]string, err error) {
 	return l.Result, nil
 }
 
+// maxSyntaxErrors limits how many syntax errors are recorded for one input.
+// Every recorded error quotes the whole input and wraps its predecessor, so
+// an unbounded list costs memory and time cubic in the size of a malformed input.
+const maxSyntaxErrors = 10
+
 // ErrorListener implements a custom ANTLR error listener that records syntax errors.
 type ErrorListener struct {
 	*antlr.DefaultErrorListener
 	Error error
 	Data  string
+	count int
 }
 
 // SyntaxError is called by ANTLR when a syntax error occurs.
 func (l *ErrorListener) SyntaxError(_ antlr.Recognizer, _ any, line, column int, msg string, e antlr.RecognitionException) {
+	if l.count++; l.count > maxSyntaxErrors {
+		return // only the first errors are reported
+	}
 	if l.Error == nil {
 		l.Error = fmt.Errorf("line %d:%d %s >> text: %q", line, column, msg, l.Data)
 		return
